@@ -759,8 +759,8 @@ RUNS_READ = dict(region='runs_read', file='cmdline/state.c', scope="\t\tif (c ==
 
 
 def blockruns_obs():
-    return [Ob('state.f_record.blockruns.roundtrip', 'harness/h_blockruns.c', 'h_blockruns', inject=[RUNS_WRITE, RUNS_READ], unwind=18, small_path=True, timeout=1200, mem=8, cost=10, kind='bounded',
-               bound='files of at most 3 blocks, hash size 16', replay=False,
+    return [Ob('state.f_record.blockruns.roundtrip', 'harness/h_blockruns.c', 'h_blockruns', inject=[RUNS_WRITE, RUNS_READ], unwind=6, small_path=True, timeout=1200, mem=8, cost=10, kind='bounded',
+               bound='files of at most 2 blocks, hash size 4', replay=False,
                functions=["state_write_content: region 'f' record block runs (cmdline/state.c, extracted mechanically)", "state_read_content: region 'f' record block runs (cmdline/state.c, extracted mechanically)"],
                note='every state (BLK / CHG / REP), hash and parity position per block; sputc / sputb32 / swrite and sgetc / sgetb32 / sread connected through a recorded event stream')]
 
